@@ -295,7 +295,7 @@ PROPS = {
                  "(in-process) / the catalogue marks the op as mutating (process); distinct by the full tuple."),
         "assumptions": ["in-process engine replicates runGateway wiring; TestC15P uses the shipped binary with --readonly"],
         "jobs": [
-            {"run": "TestC15A", "quick": 12000, "thorough": 400000, "shards_quick": 12, "shards_thorough": 16},
+            {"run": "TestC15A", "quick": 20000, "thorough": 400000, "shards_quick": 12, "shards_thorough": 16},
             {"run": "TestC15P", "quick": 4000, "thorough": 100000, "shards_quick": 4, "shards_thorough": 16},
         ],
     },
